@@ -294,4 +294,44 @@ theorem scid_then_recv_obs {s : Core} (hf : Fresh s) (blob c : Bytes) :
     · rw [e]; simp [hA]
     · rw [e]; simp [hA]
 
+/-! ### small helpers used by Props/C18 -/
+
+theorem mandatory_sub_required : ∀ (r : Role) (id : Nat), id ∈ GmQuic.Spec.Rfc9000Params.mandatory r → id ∈ required r := by
+  intro r; cases r <;> decide
+
+
+theorem pending_not_ready (s : Core) (op : Op) (h : (cstep s op).2 = .pollPending) : (cstep s op).1.ready = false := by
+  unfold cstep at h ⊢
+  split at h
+  · cases h
+  · cases op <;> dsimp only at h ⊢ <;> (repeat' split at h) <;> (try cases h) <;> simp_all [afterAuth]
+    all_goals (repeat' split at h) <;> (try cases h)
+
+
+theorem zrtt_fold_none (old new : PMap) (l : List Nat) : l.foldl (zrttStep old new) none = none := by
+  induction l with
+  | nil => rfl
+  | cons _ _ ih => simpa [zrttStep] using ih
+
+theorem zrtt_fold (old new : PMap) (ids : List Nat) (a : Bool) :
+    ids.foldl (zrttStep old new) (some a) = some true ↔
+    a = true ∧ ∀ id ∈ ids, ∃ o n, getVarint old id = some o ∧ getVarint new id = some n ∧ o ≤ n := by
+  induction ids generalizing a with
+  | nil => simp
+  | cons id ids ih =>
+    simp only [List.foldl_cons, List.mem_cons, forall_eq_or_imp]
+    cases ho : getVarint old id with
+    | none => simp [zrttStep, ho, zrtt_fold_none]
+    | some o =>
+      cases hn : getVarint new id with
+      | none => simp [zrttStep, ho, hn, zrtt_fold_none]
+      | some n =>
+        have : zrttStep old new (some a) id = some (a && decide (o ≤ n)) := by simp [zrttStep, ho, hn]
+        rw [this, ih]
+        simp only [Bool.and_eq_true, decide_eq_true_eq, Option.some.injEq, exists_and_left, exists_eq_left']
+        constructor
+        · rintro ⟨⟨ha, hle⟩, hrest⟩; exact ⟨ha, hle, hrest⟩
+        · rintro ⟨ha, hle, hrest⟩; exact ⟨⟨ha, hle⟩, hrest⟩
+
+
 end GmQuic.Params
